@@ -12,7 +12,7 @@ from harness.common import Run
 
 prop, module, cfg = sys.argv[1:4]
 mode = sys.argv[4] if len(sys.argv) > 4 else "trace"
-props_e1.MC_PLAN = {prop: [(module, cfg, cfg, "+2w" if module in ("MC_Limits", "MC_Cal") else "+1w", mode)]}
+props_e1.MC_PLAN = {prop: [(module, cfg, cfg, "+22d" if module == "MC_Week" else ("+2w" if module in ("MC_Limits", "MC_Cal") else "+1w"), mode)]}
 run = Run(prop, "thorough")
 with scratch_build() as scr:
     props_e1.run_universes(run, scr, prop, "thorough")
